@@ -483,3 +483,21 @@ Proof.
   apply forallb_forall. intros x Hx. apply in_map_iff in Hx as (e & <- & He).
   eapply ent_ok_raw; [exact Hlim|]. apply Hents, Hin, He.
 Qed.
+
+(* the dictionary of a hybrid section's xref stream has no key the reader keeps *)
+Lemma render_xref_stream_keep xnum size ents prev c xb subs d c' :
+  render_xref_stream xnum size ents prev [] c = (xb, subs, d, c') -> keep_trailer d = [].
+Proof.
+  unfold render_xref_stream.
+  destruct (group_entries (sort_entries ents) c) as [g c1].
+  set (subs0 := map (fun s : N * list rentry => (fst s, map to_stment (snd s))) g).
+  destruct (choose_w subs0 c1) as [[[w0 w1] w2] c2].
+  destruct (pick 2 c2) as [k c3]. cbv zeta.
+  change (match subs0 with
+          | [(0%N, es)] => if (len es =? size)%N && (k =? 0)%N then [] else [(k_Index, index_value subs0)]
+          | _ => [(k_Index, index_value subs0)]
+          end) with (idx_of subs0 size k).
+  match goal with |- context [render_obj_stream xnum 0 ?dd ?dt c3] => destruct (render_obj_stream xnum 0 dd dt c3) as [b c4] end.
+  intros H. injection H as _ _ <- _.
+  destruct (idx_cases subs0 size k) as [[-> _]| ->]; reflexivity.
+Qed.
